@@ -126,6 +126,12 @@ func (q *qLogFile) seekTS(
 	start := int64(0)
 	// End of the search interval (position in the file).
 	end := fileInfo.Size()
+	if end == 0 {
+		// There are no records in an empty file, so there is nothing to probe.
+		// Report it the same way as a timestamp older than all records, so
+		// that qLogReader continues the search in the older file.
+		return 0, 0, errTSTooEarly
+	}
 	// Probe is the approximate index of the line we'll try to check.
 	probe := (end - start) / 2
 
